@@ -106,4 +106,29 @@ Definition elem_ftypes (e : element) : list (str * str) :=
   | _ => []
   end.
 
+(* requests, responses, topic messages (here [pkg] is the .service / .topic sub-package) *)
+Definition virtual_ftypes (name : str) (ps : props) : list (str * str) :=
+  field_types (qual pkg name) [name] (props_list ps) ++ props_ftypes (qual pkg name) [name] ps.
+
+Definition method_ftypes (m : method) : list (str * str) :=
+  virtual_ftypes (m_name m ++ b "Request") (m_request m) ++
+  match m_response m with
+  | Some ps => virtual_ftypes (m_name m ++ b "Response") ps
+  | None => []
+  end.
+Definition service_ftypes (s : service) : list (str * str) := flat_map method_ftypes (sv_methods s).
+
+Definition tmsgs_ftypes (tname : str) (virt : props) (l : list tmsg) : list (str * str) :=
+  flat_map (fun t => virtual_ftypes (tmsg_name tname t ++ b "Message") (papp virt (tm_fields t))) l.
+Definition topic_ftypes (t : topic) : list (str * str) :=
+  match t with
+  | TPublish name msgs => tmsgs_ftypes name PNil msgs
+  | TReqRes name req reply =>
+      tmsgs_ftypes (name ++ b "Request") virt_request req ++ tmsgs_ftypes (name ++ b "Reply") virt_request reply
+  | TUpsert name _ msg =>
+      tmsgs_ftypes name virt_upsert
+        [match tm_name msg with None => mkTmsg (Some name) (tm_fields msg) | Some _ => msg end]
+  | TEvent name _ msg => tmsgs_ftypes name PNil [msg]
+  end.
+
 End TypeNames.
